@@ -23,13 +23,14 @@ def _pc_reference_vec(J, orders):
 @handler("pcgrad")
 def r_pcgrad(c):
     from torchjd.aggregation import PCGrad
-    J = gram_to_matrix(c["G"]) if "G" in c else np.asarray(arr(c["J"]), dtype=float)
     orders = [list(map(int, o)) for o in c["orders"]]
-    it = iter(orders)
-    with patched(torch, "randperm", lambda n, **k: torch.tensor(next(it))):
-        out = PCGrad()(t64(J)).numpy()
-    ref = _pc_reference_vec(J, orders)
-    return dict(reproduced=not close(out, ref, 1e-6, scale=np.abs(J).max()), out=out.tolist(), reference=ref.tolist(), J=J.tolist())
+    def run(J):
+        it = iter(orders)
+        with patched(torch, "randperm", lambda n, **k: torch.tensor(next(it))):
+            out = PCGrad()(t64(J)).numpy()
+        ref = _pc_reference_vec(J, orders)
+        return dict(reproduced=not close(out, ref, 1e-6, scale=np.abs(J).max()), out=out.tolist(), reference=ref.tolist(), J=J.tolist())
+    return scale_ladder(run, gram_to_matrix(c["G"]) if "G" in c else np.asarray(arr(c["J"]), dtype=float))
 
 
 HANDLERS["pcgrad_vec"] = r_pcgrad
@@ -38,24 +39,25 @@ HANDLERS["pcgrad_vec"] = r_pcgrad
 @handler("mgda")
 def r_mgda(c):
     from torchjd.aggregation import MGDA
-    J = gram_to_matrix(c["G"])
-    G = J @ J.T
-    A = MGDA(epsilon=num(c["epsilon"]), max_iters=int(c["iters"]))
-    a = A.weighting(t64(J)).numpy()
-    m = len(a)
-    q = lambda v: float(v @ G @ v)
-    s = max(abs(G).max(), 1e-300)  # tolerances relative to the scale of the input
-    bad = []
-    if abs(a.sum() - 1) > TOL or a.min() < -TOL:
-        bad.append("not on the simplex")
-    if q(a) > q(np.ones(m) / m) + TOL * s:
-        bad.append("longer than the mean")
-    if m == 2 and c.get("ob") == "mgda_m2_exact_min_norm_point":
-        ts = np.linspace(0, 1, 20001)
-        best = min(q(np.array([t, 1 - t])) for t in ts)
-        if q(a) > best + 1e-5 * s:
-            bad.append(f"not the min-norm point of the segment: {q(a)} vs {best}")
-    return dict(reproduced=bool(bad), why=bad, alpha=a.tolist(), J=J.tolist())
+    def run(J):
+        G = J @ J.T
+        A = MGDA(epsilon=num(c["epsilon"]), max_iters=int(c["iters"]))
+        a = A.weighting(t64(J)).numpy()
+        m = len(a)
+        q = lambda v: float(v @ G @ v)
+        s = max(abs(G).max(), 1e-300)  # tolerances relative to the scale of the input
+        bad = []
+        if abs(a.sum() - 1) > TOL or a.min() < -TOL:
+            bad.append("not on the simplex")
+        if q(a) > q(np.ones(m) / m) + TOL * s:
+            bad.append("longer than the mean")
+        if m == 2 and c.get("ob") == "mgda_m2_exact_min_norm_point":
+            ts = np.linspace(0, 1, 20001)
+            best = min(q(np.array([t, 1 - t])) for t in ts)
+            if q(a) > best + 1e-5 * s:
+                bad.append(f"not the min-norm point of the segment: {q(a)} vs {best}")
+        return dict(reproduced=bool(bad), why=bad, alpha=a.tolist(), J=J.tolist())
+    return scale_ladder(run, gram_to_matrix(c["G"]))
 
 
 @handler("random")
@@ -92,15 +94,16 @@ def r_graddrop(c):
 @handler("cagrad")
 def r_cagrad(c):
     from torchjd.aggregation import CAGrad
-    J = gram_to_matrix(c["G"])
     cc, eps = num(c["c"]), num(c["norm_eps"])
-    A = CAGrad(c=cc, norm_eps=eps)
-    out = A(t64(J)).numpy()
-    g0 = J.mean(0)
-    lhs, rhs = float(np.linalg.norm(out - g0)), cc * float(np.linalg.norm(g0))
-    zero = float(np.linalg.norm(out)) <= 1e-12
-    ok = zero or abs(lhs - rhs) <= 1e-4 * max(np.abs(J).max(), rhs, 1e-300)
-    return dict(reproduced=not ok, dist=lhs, expected=rhs, out=out.tolist())
+    def run(J):
+        A = CAGrad(c=cc, norm_eps=eps)
+        out = A(t64(J)).numpy()
+        g0 = J.mean(0)
+        lhs, rhs = float(np.linalg.norm(out - g0)), cc * float(np.linalg.norm(g0))
+        zero = float(np.linalg.norm(out)) <= 1e-12 * max(np.abs(J).max(), 1e-300)
+        ok = zero or abs(lhs - rhs) <= 1e-4 * max(np.abs(J).max(), rhs, 1e-300)
+        return dict(reproduced=not ok, dist=lhs, expected=rhs, out=out.tolist(), J=J.tolist())
+    return scale_ladder(run, gram_to_matrix(c["G"]))
 
 
 # ------------------------------------------------------------------------------------------- C16
